@@ -7,6 +7,7 @@ CONSTANTS
   ExpiryRecheck = TRUE
   EntryApi = FALSE
   FlushLock = TRUE
+  CollectOwn = TRUE
 SPECIFICATION Spec
 INVARIANT Linearizable
 PROPERTY Termination
